@@ -125,12 +125,14 @@ example :
             [true, true, false, false]] := by
   refine ⟨by decide +kernel, by decide +kernel⟩
 
-/-- The `defNeutral` clause of `validStyles` is needed (known finding C03-style-alignment-from-cell-style, corpus file
-    issue_210.xlsx): `make_style` hands `cellStyleXfs[0]` to `get_style_by_cell_format` as `def_cell_format` for every cell
-    xf, and an xf WITHOUT an `<alignment>` child takes that record's alignment.  Witness (the shape Excel writes for a
-    workbook whose Normal style is vertically centred): `cellStyleXfs = [<xf …><alignment vertical="center"/></xf>]`,
-    `cellXfs = [<xf … applyAlignment="1"/>]`: the library shows vertical = center for the cell xf, the decoder (18.8.45:
-    the xf's own record; no `<alignment>` = the defaults of CT_CellAlignment) shows no alignment at all. -/
+/-- An xf without an `<alignment>` child has no alignment of its own, whatever `cellStyleXfs[0]` carries (was known
+    finding C03-style-alignment-from-cell-style, corpus file issue_210.xlsx: before the fix `make_style` handed
+    `cellStyleXfs[0]` to `get_style_by_cell_format` as `def_cell_format` and an xf WITHOUT the child took that record's
+    alignment / protection).  Witness (the shape Excel writes for a workbook whose Normal style is vertically centred):
+    `cellStyleXfs = [<xf …><alignment vertical="center"/></xf>]`, `cellXfs = [<xf … applyAlignment="1"/>]`: the library,
+    like the decoder (18.8.45: the xf's own record; no `<alignment>` = the defaults of CT_CellAlignment), shows no
+    alignment for the cell xf; the sheet is inside `validStyles` now (the `defNeutral` clause asks for no `apply*`
+    attribute on `cellStyleXfs[0]` only); the old rule (`resolveXfOld`) gave vertical = center. -/
 def inheritStyles : Node :=
   el "styleSheet" []
     [el "fonts" [] [el "font" [] [el "sz" [("val", "11")] [], el "name" [("val", "Calibri")] []]],
@@ -140,12 +142,21 @@ def inheritStyles : Node :=
        [el "alignment" [("vertical", "center")] []]],
      el "cellXfs" [] [el "xf" [("numFmtId", "0"), ("fontId", "0"), ("fillId", "0"), ("borderId", "0"), ("xfId", "0"), ("applyAlignment", "1")] []]]
 
-theorem C03_style_alignment_from_cell_style_fails :
-    ((readStyleSheet id inheritStyles).map fun m => m.map fun s => (styleFacts s).alignment) =
-      some [some { vertical := some "center".toList }] ∧
+theorem C03_style_alignment_own_record :
+    ((readStyleSheet id inheritStyles).map fun m => m.map fun s => (styleFacts s).alignment) = some [none] ∧
     ((styleTable inheritStyles).map fun x => (xfFacts id x).alignment) = [none] ∧
-    stylesShape inheritStyles = true ∧ stylesItems inheritStyles = true ∧ validStyles inheritStyles = false := by
-  refine ⟨by decide +kernel, by decide +kernel, by decide +kernel, by decide +kernel, by decide +kernel⟩
+    validStyles inheritStyles = true := by
+  refine ⟨by decide +kernel, by decide +kernel, by decide +kernel⟩
+
+/-- the rule before the fix, on the same records: the cell xf took the alignment of `cellStyleXfs[0]` -/
+theorem C03_style_alignment_from_cell_style_unfixed_fails :
+    ((resolveXfOld {} { alignment := some { vertical := some .center } }
+        { applyFont := some false, applyFill := some false, applyBorder := some false, applyAlignment := some true }).map
+        fun s => s.alignment) = some (some { vertical := some .center }) ∧
+    ((resolveXf {} { alignment := some { vertical := some .center } }
+        { applyFont := some false, applyFill := some false, applyBorder := some false, applyAlignment := some true }).map
+        fun s => s.alignment) = some none := by
+  refine ⟨by decide +kernel, by decide +kernel⟩
 
 end Styles
 
